@@ -214,6 +214,13 @@ def main : IO Unit := do
   firstDiff "Index::update" (pairs [0, 5, 18446744073709551615] [0, 46, 4294967296])
     (fun (t, o) => (.ok (toString (repr (Index_update ⟨[⟨1, 0⟩], some 1⟩ t o |>.toOption.map fun r => (r.1.1.entries, r.1.1.last_timestamp, r.1.2)))) : R String))
     (fun (t, o) => .ok (toString (repr (some (([⟨1, 0⟩, ⟨t, o⟩] : List IEntry), some t, [IoW.indexWrite (le8 t), IoW.indexWrite (le8 o)])))))
+  -- the open-time repair: canonical regions (two sections, marker-like bytes) cut at EVERY byte length, per payload class
+  for p in [0, 1, 2, 3, 4, 7] do
+    let mkl := fun (d seed : Nat) => le2 d ++ (List.range p).map fun i => UInt8.ofNat (if (seed + i) % 3 == 0 then 255 else (seed * 7 + i) % 200)
+    let region : Bytes := metaWrite p 65535 ++ mkl 0 1 ++ mkl 5 2 ++ mkl 65534 3 ++ metaWrite p 4294967295 ++ mkl 0 4 ++ mkl 65535 5
+    firstDiff s!"FileWithInlineMeta::new(p={p})" ((List.range (region.length + 1)).map fun n => (n, region.take n))
+      (fun (_, d) => (FileWithInlineMeta_new d p).map fun r => (r.1, r.2.file_handle, r.2.payload_size))
+      (fun (_, d) => .ok (repairData p d, repairData p d, p))
   -- push_line: payload length x range x timestamp; compare the decisions (error class / new range / the two actions)
   let plShow := fun (r : R ((SeriesView × List CatchUp) × Unit)) => (match r with
     | .error f => reprR (.error f : R Nat)
